@@ -56,14 +56,15 @@ RECURSIVE RPowNat(_, _)
 RPowNat(a, k) == IF k = 0 THEN ROne ELSE RMul(a, RPowNat(a, k - 1))
 HasSqrt(n) == \E s \in 0..142 : s * s = n
 ISqrt(n) == CHOOSE s \in 0..142 : s * s = n
-\* a^b: integer exponents exactly; half-integer exponents on perfect squares; otherwise undefined
+\* a^b: integer exponents exactly; exponents with denominator 2 or 4 on perfect squares / fourth powers;
+\* otherwise undefined
+RPowInt(a, k) == IF k >= 0 THEN (IF k > 12 THEN Bad ELSE RPowNat(a, k)) ELSE (IF -k > 12 THEN Bad ELSE RInv(RPowNat(a, -k)))
+HasRSqrt(a) == a[1] >= 0 /\ HasSqrt(a[1]) /\ HasSqrt(a[2])
+RSqrt(a) == <<ISqrt(a[1]), ISqrt(a[2])>>
 RPow(a, b) == IF IsBad(a) \/ IsBad(b) THEN Bad
-              ELSE IF b[2] = 1 THEN (IF b[1] >= 0 THEN (IF b[1] > 12 THEN Bad ELSE RPowNat(a, b[1]))
-                                     ELSE (IF -b[1] > 12 THEN Bad ELSE RInv(RPowNat(a, -b[1]))))
-              ELSE IF b[2] = 2 /\ a[1] >= 0 /\ HasSqrt(a[1]) /\ HasSqrt(a[2])
-                   THEN LET r == <<ISqrt(a[1]), ISqrt(a[2])>>
-                        IN IF b[1] >= 0 THEN (IF b[1] > 12 THEN Bad ELSE RPowNat(r, b[1]))
-                           ELSE (IF -b[1] > 12 THEN Bad ELSE RInv(RPowNat(r, -b[1])))
+              ELSE IF b[2] = 1 THEN RPowInt(a, b[1])
+              ELSE IF b[2] = 2 /\ HasRSqrt(a) THEN RPowInt(RSqrt(a), b[1])
+              ELSE IF b[2] = 4 /\ HasRSqrt(a) /\ HasRSqrt(RSqrt(a)) THEN RPowInt(RSqrt(RSqrt(a)), b[1])
               ELSE Bad
 
 \* ------------------------------------------------------------------ dual numbers
